@@ -114,10 +114,6 @@ def run_prog(args, hook=None):
 
 # ------------------------------------------------------------------------------------------------ laws
 
-def sset(text, o):
-    return SpecifierSet(text, prereleases=TRI[o])
-
-
 def AND(x, y):
     try: return x & y
     except ValueError: return None
@@ -166,10 +162,10 @@ def law_c05(args):
     contradictory = {TRI[oa], TRI[ob]} == {True, False}
     if (ab is None) != contradictory or (ba is None) != contradictory: return "error cell of & wrong for overrides %s %s" % (oa, ob)
     if ab is not None:
-        if ab != ba or hash(ab) != hash(ba) or ab._prereleases is not ba._prereleases: return "& not commutative: %r %r" % (A, B)
+        if ab != ba or hash(ab) != hash(ba) or ab.prereleases is not ba.prereleases: return "& not commutative: %r %r" % (A, B)
         exp = TRI[oa] if TRI[oa] is not None else TRI[ob]
-        if ab.prereleases is not (exp if exp is not None else (None if not len(ab) else any(s.prereleases for s in ab))): return "override not carried by &"
         if exp is not None and ab.prereleases is not exp: return "override not carried by &"
+        if exp is None and ab.prereleases is not (None if not len(ab) else any(s.prereleases for s in ab)): return "a & b of sets without override has an override"
         cat = SpecifierSet(",".join(A + B))
         if ab != cat or hash(ab) != hash(cat): return "a & b is not the set parsed from the concatenated clauses: %r %r" % (A, B)
         if not any(x.startswith("===") and "," in x for x in map(str, list(a) + list(b_))):
@@ -183,8 +179,8 @@ def law_c05(args):
                 if ab.contains(x, prereleases=p) is not (a.contains(x, prereleases=p) and b_.contains(x, prereleases=p)):
                     return "a & b does not match exactly what both match: %r %r %r prereleases=%r" % (A, B, x, p)
         l = AND(ab, c); bc = AND(b_, c); rr = AND(a, bc) if bc is not None else None
-        if (l is None) != (rr is None) and not (bc is None): return "associativity: one side raises (%s %s %s)" % (oa, ob, oc)
-        if l is not None and rr is not None and (l != rr or l._prereleases is not rr._prereleases or str(l).split(",").__len__() != str(rr).split(",").__len__()):
+        if (l is None) != (rr is None): return "associativity: one side raises (%s %s %s)" % (oa, ob, oc)
+        if l is not None and (l != rr or hash(l) != hash(rr) or l.prereleases is not rr.prereleases or len(l) != len(rr)):
             return "& not associative: %r %r %r" % (A, B, C)
     # str round trip
     s = str(a)
